@@ -169,6 +169,32 @@ def job_primes_small(res, lo, hi, fn):
                 confirm(res, PID, HARNESS, 'h_nextprime', [('i32', nv)], 'i64', 'nextprime', ORACLES, 'nextprime:value', f'nextprime wrong for n={nv}')
             else: res.inc('nextprime query unknown')
 
+def o_nextprime2(spec, r, extra):
+    a, n = spec[0][1], spec[1][1]
+    if r['status'] != 'ok': return True, f'nextprime({a}); nextprime({n}) {r["status"]}'
+    e = n
+    while not py_isprime(e): e += 1
+    return r['ret'] != e, f'after nextprime({a}), nextprime({n}) = {r["ret"]}, expected {e}'
+ORACLES['nextprime2'] = o_nextprime2
+
+def job_history(res, first, lo, hi):
+    """nextprime(first) followed by nextprime(n), n symbolic: the second answer must be the one a fresh call gives"""
+    mod, so = load(HARNESS); S = sieve(hi + 200)
+    def setup(m):
+        n = bvsym('n', 32); m.assume(z3.UGE(n.e, lo)); m.assume(z3.ULT(n.e, hi)); return [first, n], n
+    for p in explore(mod, '@h_nextprime2', setup, max_paths=3000, max_steps=60_000_000):
+        if p.out != 'ret': res.inc(f'nextprime history path {p.out}: {p.err}'); continue
+        res.absorb(p.m); n = p.ctx.e; r = p.ret
+        if not isinstance(r, int): res.inc('nextprime2: symbolic return'); continue
+        r = sgn(r, 64); prev = max([q for q in S if q < r], default=0)
+        sol = z3.Solver(); sol.add(*p.m.pc); sol.add(z3.Not(z3.And(z3.BoolVal(r in S), z3.ULE(n, r), z3.UGT(n, prev) if prev else z3.BoolVal(True))))
+        c = timed_check(sol, res)
+        if c == z3.unsat: res.ob(True, 'BV', f'nextprime({first}) then nextprime(n) path ret={r}: smallest prime >= n regardless of the earlier call')
+        elif c == z3.sat:
+            nv = model_int(model_dict(sol), 'n')
+            confirm(res, PID, HARNESS, 'h_nextprime2', [('i32', first), ('i32', nv)], 'i64', 'nextprime2', ORACLES, 'nextprime:history', f'nextprime({nv}) depends on an earlier call nextprime({first})'); return
+        else: res.inc('nextprime2 query unknown')
+
 NEXT = '@_ZN6dsplib12_GLOBAL__N_115PrimesGenerator4nextEv'
 class StopPath(Exception): pass
 def job_guard(res, fn):
@@ -262,7 +288,7 @@ def job_pow2(res, fn):
             confirm(res, PID, HARNESS, 'h_' + fn, [('i32', mv)], 'i32', fn, ORACLES, f'{fn}:value', f'{fn} wrong for m={sgn(mv, 32)}')
         else: res.inc(f'{fn} query unknown')
 
-JOBFNS = {'isprime16': job_isprime16, 'factor_small': job_factor_small, 'primes_small': job_primes_small, 'guard': job_guard, 'pow2': job_pow2}
+JOBFNS = {'history': job_history, 'isprime16': job_isprime16, 'factor_small': job_factor_small, 'primes_small': job_primes_small, 'guard': job_guard, 'pow2': job_pow2}
 
 def selftest(st):
     mod, so = load(HARNESS)
@@ -295,6 +321,7 @@ def main(tier, seed):
     for lo, hi in zip(pe, pe[1:]):
         jobs.append((f'primes[{lo},{hi})', 'primes_small', dict(lo=lo, hi=hi, fn='primes'), 1500))
         jobs.append((f'nextprime[{lo},{hi})', 'primes_small', dict(lo=lo, hi=hi, fn='nextprime'), 1500))
+    jobs += [(f'nextprime history {f}', 'history', dict(first=f, lo=lo, hi=lo + 128), 900) for f in (1000, 300) for lo in (0, 128, 256)]
     jobs += [('guard:isprime', 'guard', dict(fn='isprime'), 600), ('guard:factor', 'guard', dict(fn='factor'), 600)]
     jobs += [('nextpow2', 'pow2', dict(fn='nextpow2'), 600), ('ispow2', 'pow2', dict(fn='ispow2'), 600)]
     return run_property(PID, tier, HARNESS, jobs, JOBFNS,
